@@ -17,6 +17,7 @@ import (
 	"verif/gen/nbtgen"
 	"verif/inject"
 	"verif/ref/refnbt"
+	"verif/ref/refsnbt"
 	"verif/vm"
 )
 
@@ -644,6 +645,24 @@ func checkStringified(c *vm.Ctx, r *vm.Rand, g *nbtgen.G) {
 	var h snbtHolder
 	if _, ok := decodeBytes(c, "snbt/field", doc, false, &h, wit); !ok {
 		return
+	}
+	// the text the carrier holds is judged by the independent SNBT reader, not only by the library's own way back:
+	// a text that says something else than the document round-trips with itself just as well
+	if ref := refsnbt.Parse([]byte(h.C)); ref.Status == refsnbt.Reject {
+		c.Violation("snbt/field/text-not-snbt", fmt.Sprintf("the text decoded into a StringifiedMessage field is not SNBT by the independent reader (%s): %q", ref.Reason, short(string(h.C))), wit())
+		return
+	} else {
+		got := ref.Tree
+		if got == nil {
+			got = ref.IfAccepted
+		}
+		if got != nil {
+			if d := refnbt.Equal(got, tree, refnbt.Opts{EmptyListElemFree: true}); d != "" && (ref.IfAcceptedAlt == nil || refnbt.Equal(ref.IfAcceptedAlt, tree, refnbt.Opts{EmptyListElemFree: true}) != "") {
+				c.Violation("snbt/field/text-denotes-other-value", fmt.Sprintf("the text decoded into a StringifiedMessage field denotes another value than the document: %s; text %q", d, short(string(h.C))), wit())
+				return
+			}
+			c.Cover("snbt.field.text-read-independently")
+		}
 	}
 	b, ok := encodeBytes(c, "snbt/field", h, "", false, wit)
 	if !ok {
